@@ -30,6 +30,12 @@ pub struct RunResult {
     pub steps: usize,
     pub harness_error: Option<String>,
     pub trace: Option<Vec<String>>,
+    /// mutating disk calls made by erbium over the whole run
+    #[serde(default)]
+    pub disk_calls: u64,
+    /// order-free summary of what every request got and of the final store
+    #[serde(default)]
+    pub digest: Vec<String>,
 }
 
 impl RunResult {
